@@ -3,6 +3,7 @@ package c03
 import (
 	"bytes"
 	"fmt"
+	"reflect"
 	"sort"
 	"strings"
 
@@ -41,6 +42,16 @@ func checkExposeOf(c *core.Ctx) {
 		{"PkgExposeFor[glist.List[dep.v1.Item]](\"Other\")", func() snippet.Snippet { return snippet.PkgExposeFor[glist.List[depv1.Item]]("Other") }, glistPath, "Other"},
 		{"PkgExposeOf(dep.v1.Item{})", func() snippet.Snippet { return snippet.PkgExposeOf(depv1.Item{}) }, depv1Path, "Item"},
 		{"PkgExposeFor[dep.v1.Item]()", func() snippet.Snippet { return snippet.PkgExposeFor[depv1.Item]() }, depv1Path, "Item"},
+		// snippet.ID of reflect types that hold such an instantiation BELOW a pointer, slice, map, array or struct
+		// field (name "": only what C03 says about the import table is judged, the text is C11's business)
+		{"ID(reflect []glist.List[dep.v1.Item])", func() snippet.Snippet { return snippet.ID(reflect.TypeOf([]glist.List[depv1.Item]{})) }, glistPath, ""},
+		{"ID(reflect *glist.List[dep.v1.Item])", func() snippet.Snippet { return snippet.ID(reflect.TypeOf(&glist.List[depv1.Item]{})) }, glistPath, ""},
+		{"ID(reflect map[string]glist.List[dep.v1.Item])", func() snippet.Snippet { return snippet.ID(reflect.TypeOf(map[string]glist.List[depv1.Item]{})) }, glistPath, ""},
+		{"ID(reflect [2]*glist.Pair[dep.v1.Item, int])", func() snippet.Snippet { return snippet.ID(reflect.TypeOf([2]*glist.Pair[depv1.Item, int]{})) }, glistPath, ""},
+		{"ID(reflect struct{ F glist.List[dep.v1.Item] })", func() snippet.Snippet {
+			return snippet.ID(reflect.TypeOf(struct{ F glist.List[depv1.Item] }{}))
+		}, glistPath, ""},
+		{"ID(reflect glist.List[dep.v1.Item])", func() snippet.Snippet { return snippet.ID(reflect.TypeOf(glist.List[depv1.Item]{})) }, glistPath, ""},
 	}
 	for _, target := range []string{"x.io/elsewhere", glistPath, depv1Path} {
 		for _, r := range refs {
@@ -88,6 +99,11 @@ func checkExposeOf(c *core.Ctx) {
 				seen[n] = p
 			}
 			if bad {
+				continue
+			}
+			if r.name == "" {
+				c.State("exposeOf/composite")
+				c.Nontrivial("exposeOf|" + r.desc + "|" + target)
 				continue
 			}
 			want := r.name
